@@ -239,8 +239,11 @@ func cmdCheck(args []string) int {
 		os.MkdirAll(repDir, 0o755)
 		path := filepath.Join(repDir, fileSafe(nv.key)+".json")
 		expect := nv.c.V.Kind + ":" + nv.c.V.ID
-		if nv.c.V.Kind == "panic" {
+		switch nv.c.V.Kind {
+		case "panic":
 			expect = "panic"
+		case "write", "race":
+			expect = "race"
 		}
 		rf := replayFile{Property: id, Key: nv.key, Harness: nv.c.Spec.Harness, Params: nv.c.Spec.Params, Vector: nv.c.V.Vector, Kinds: nv.c.V.Kinds, Expect: expect, Msg: nv.c.V.Msg + " | native: " + nv.c.Native + " " + nv.c.Detail}
 		b, _ := json.MarshalIndent(rf, "", " ")
